@@ -251,18 +251,208 @@ class _Scoped(ast.NodeTransformer):
             if got is None:
                 return node
             test, binds = got
-            if case.guard is not None:
-                if binds:
-                    return node         # the guard may use the captured names
-                test = case.guard if test is None else ast.BoolOp(op=ast.And(), values=[test, case.guard])
-            arms.append((test, binds + case.body))
-        out = None
-        for test, body in reversed(arms):
+            if case.guard is not None and binds and test is not None:
+                return node         # bindings of a refutable pattern are only made when it matches
+            arms.append((test, binds, case.guard, case.body))
+        out = []
+        for test, binds, guard, body in reversed(arms):
+            for b in binds:
+                self._fix(b, body[0])
             if test is None:
-                out = body
+                # irrefutable (capture / wildcard): the name is bound, then the guard decides
+                if guard is None:
+                    out = binds + body
+                else:
+                    out = binds + [self._fix(ast.If(test=guard, body=body, orelse=out), body[0])]
             else:
-                out = [self._fix(ast.If(test=test, body=body, orelse=out or []), body[0])]
-        return [self._assign(subj, node.subject, node)] + (out or [])
+                cond = test if guard is None else ast.BoolOp(op=ast.And(), values=[test, guard])
+                out = [self._fix(ast.If(test=cond, body=binds + body, orelse=out), body[0])]
+        return [self._assign(subj, node.subject, node)] + out
+
+
+class _Blocks(ast.NodeTransformer):
+    """Rewrites that need the neighbouring statements of a block."""
+
+    def __init__(self):
+        self.n = itertools.count()
+        self.fn_stack = []
+
+    def visit_FunctionDef(self, node):
+        self.fn_stack.append(node)
+        self.generic_visit(node)
+        self.fn_stack.pop()
+        return node
+
+    def generic_visit(self, node):
+        super().generic_visit(node)
+        for name in ("body", "orelse", "finalbody"):
+            stmts = getattr(node, name, None)
+            if isinstance(stmts, list) and stmts and isinstance(stmts[0], ast.stmt):
+                setattr(node, name, self.block(stmts))
+        return node
+
+    # ---- helpers -------------------------------------------------------------------------------
+    @staticmethod
+    def _names(node, ctx=None):
+        return [n for n in ast.walk(node) if isinstance(n, ast.Name) and (ctx is None or isinstance(n.ctx, ctx))]
+
+    def _uses(self, name, where):
+        return sum(1 for w in where for n in self._names(w) if n.id == name)
+
+    def block(self, stmts):
+        out = []
+        i = 0
+        while i < len(stmts):
+            st = stmts[i]
+            new = None
+            if isinstance(st, ast.While):
+                new = self._iterator_while(out, st) or self._indexed_while(out, st)
+            elif isinstance(st, (ast.Assign, ast.Return)) and isinstance(st.value, ast.Call):
+                new = self._reduce(st)
+            if new is not None:
+                out.extend(new)
+            else:
+                out.append(st)
+            i += 1
+        return out
+
+    # it = iter(X); while (v := next(it, S)) is not S: body      ->      for v in X: body
+    def _iterator_while(self, before, st):
+        t = st.test
+        if not (isinstance(t, ast.Compare) and len(t.ops) == 1 and isinstance(t.ops[0], ast.IsNot) and
+                isinstance(t.left, ast.NamedExpr) and isinstance(t.left.value, ast.Call) and
+                isinstance(t.left.value.func, ast.Name) and t.left.value.func.id == "next" and
+                len(t.left.value.args) == 2 and isinstance(t.left.value.args[0], ast.Name) and
+                ast.dump(t.left.value.args[1]) == ast.dump(t.comparators[0]) and
+                isinstance(t.comparators[0], (ast.Name, ast.Attribute, ast.Constant)) and not st.orelse):
+            return None
+        it = t.left.value.args[0].id
+        if not before or not (isinstance(before[-1], ast.Assign) and len(before[-1].targets) == 1 and
+                              isinstance(before[-1].targets[0], ast.Name) and before[-1].targets[0].id == it and
+                              isinstance(before[-1].value, ast.Call) and isinstance(before[-1].value.func, ast.Name) and
+                              before[-1].value.func.id == "iter" and len(before[-1].value.args) == 1):
+            return None
+        fn = self.fn_stack[-1] if self.fn_stack else None
+        if fn is None or self._uses(it, [fn]) != 2:          # the iterator is used nowhere else
+            return None
+        source = before.pop().value.args[0]
+        loop = ast.For(target=ast.Name(id=t.left.target.id, ctx=ast.Store()), iter=source, body=st.body, orelse=[],
+                       type_comment=None)
+        ast.copy_location(loop, st)
+        ast.fix_missing_locations(loop)
+        return [loop]
+
+    # i = 0; while i < len(S): ... S[i] ...; i += 1      ->      i = 0; for e in S: ... e ...; i += 1
+    @staticmethod
+    def _binding(before, name):
+        """(statement, value expression) of the last assignment to `name` in the preceding statements."""
+        for st in reversed(before):
+            if isinstance(st, ast.Assign) and len(st.targets) == 1:
+                t = st.targets[0]
+                if isinstance(t, ast.Name) and t.id == name:
+                    return st, st.value
+                if isinstance(t, ast.Tuple) and isinstance(st.value, ast.Tuple) and len(t.elts) == len(st.value.elts):
+                    for el, v in zip(t.elts, st.value.elts):
+                        if isinstance(el, ast.Name) and el.id == name:
+                            return st, v
+            if any(isinstance(n, ast.Name) and n.id == name and isinstance(n.ctx, (ast.Store, ast.Del)) for n in ast.walk(st)):
+                return None
+        return None
+
+    def _indexed_while(self, before, st):
+        t = st.test
+        if not (isinstance(t, ast.Compare) and len(t.ops) == 1 and not st.orelse and st.body):
+            return None
+        a, op, b = t.left, t.ops[0], t.comparators[0]
+        if isinstance(op, ast.Gt):
+            a, b, op = b, a, ast.Lt()
+        if not (isinstance(op, (ast.Lt, ast.NotEq)) and isinstance(a, ast.Name)):
+            return None
+        idx = a.id
+        bound_name = None
+        if isinstance(b, ast.Name):
+            got = self._binding(before, b.id)
+            if got is None:
+                return None
+            bound_name, b = b.id, got[1]
+        if not (isinstance(b, ast.Call) and isinstance(b.func, ast.Name) and b.func.id == "len" and len(b.args) == 1 and
+                isinstance(b.args[0], ast.Name) and not b.keywords):
+            return None
+        seq = b.args[0].id
+        got = self._binding(before, idx)
+        if got is None or not (isinstance(got[1], ast.Constant) and got[1].value == 0 and type(got[1].value) is int):
+            return None
+        incs = [k for k, x in enumerate(st.body)
+                if isinstance(x, ast.AugAssign) and isinstance(x.op, ast.Add) and isinstance(x.target, ast.Name) and
+                x.target.id == idx and isinstance(x.value, ast.Constant) and x.value.value == 1 and type(x.value.value) is int]
+        if len(incs) != 1:
+            return None
+        j = incs[0]
+        # the index, the bound and the sequence are not rebound, the sequence is not resized, no jump skips the
+        # increment, and the index is not read after the increment
+        for k, stmt in enumerate(st.body):
+            if k == j:
+                continue
+            for n in ast.walk(stmt):
+                if isinstance(n, ast.Name) and n.id in (idx, seq, bound_name) and isinstance(n.ctx, (ast.Store, ast.Del)):
+                    return None
+                if isinstance(n, ast.Name) and n.id == idx and k > j:
+                    return None
+                if isinstance(n, ast.Continue) and k < j:
+                    return None
+                if isinstance(n, ast.Attribute) and isinstance(n.value, ast.Name) and n.value.id == seq and \
+                        n.attr in ("append", "extend", "insert", "pop", "remove", "clear", "sort", "reverse"):
+                    return None
+                if isinstance(n, ast.Subscript) and isinstance(n.ctx, (ast.Store, ast.Del)) and \
+                        isinstance(n.value, ast.Name) and n.value.id == seq:
+                    return None
+                if isinstance(n, (ast.FunctionDef, ast.Lambda)):
+                    return None
+        elem = f"_ds_e{next(self.n)}"
+        used = [0]
+
+        class Sub(ast.NodeTransformer):
+            def visit_Subscript(self, n):
+                self.generic_visit(n)
+                if isinstance(n.value, ast.Name) and n.value.id == seq and isinstance(n.slice, ast.Name) and \
+                        n.slice.id == idx and isinstance(n.ctx, ast.Load):
+                    used[0] += 1
+                    return ast.copy_location(ast.Name(id=elem, ctx=ast.Load()), n)
+                return n
+        body = [Sub().visit(x) if k != j else x for k, x in enumerate(st.body)]
+        if not used[0]:
+            return None
+        loop = ast.For(target=ast.Name(id=elem, ctx=ast.Store()), iter=ast.Name(id=seq, ctx=ast.Load()), body=body,
+                       orelse=[], type_comment=None)
+        ast.copy_location(loop, st)
+        ast.fix_missing_locations(loop)
+        return [loop]
+
+    # y = functools.reduce(f, xs, init)      ->      y = init; for x in xs: y = f(y, x)
+    def _reduce(self, st):
+        c = st.value
+        f = c.func
+        name = f.id if isinstance(f, ast.Name) else (f.attr if isinstance(f, ast.Attribute) and
+                                                     isinstance(f.value, ast.Name) and f.value.id == "functools" else None)
+        if name != "reduce" or len(c.args) != 3 or c.keywords or not isinstance(c.args[0], (ast.Name, ast.Attribute)):
+            return None
+        simple = isinstance(st, ast.Assign) and len(st.targets) == 1 and isinstance(st.targets[0], ast.Name)
+        acc = st.targets[0].id if simple else f"_ds_acc{next(self.n)}"
+        x = f"_ds_x{next(self.n)}"
+        init = ast.Assign(targets=[ast.Name(id=acc, ctx=ast.Store())], value=c.args[2], type_comment=None)
+        step = ast.Assign(targets=[ast.Name(id=acc, ctx=ast.Store())],
+                          value=ast.Call(func=c.args[0], args=[ast.Name(id=acc, ctx=ast.Load()), ast.Name(id=x, ctx=ast.Load())],
+                                         keywords=[]), type_comment=None)
+        loop = ast.For(target=ast.Name(id=x, ctx=ast.Store()), iter=c.args[1], body=[step], orelse=[], type_comment=None)
+        out = [init, loop]
+        if isinstance(st, ast.Return):
+            out.append(ast.Return(value=ast.Name(id=acc, ctx=ast.Load())))
+        elif not simple:
+            out.append(ast.Assign(targets=st.targets, value=ast.Name(id=acc, ctx=ast.Load()), type_comment=None))
+        for o in out:
+            ast.copy_location(o, st)
+            ast.fix_missing_locations(o)
+        return out
 
 
 def desugar(tree):
@@ -286,5 +476,6 @@ def desugar(tree):
                 rebound.add(a.asname or a.name)
     tree = _Desugar(rebound, dotted).visit(tree)
     tree = _Scoped().visit(tree)
+    tree = _Blocks().visit(tree)
     ast.fix_missing_locations(tree)
     return tree
